@@ -17,6 +17,7 @@ import WrglModel.Driver.C12
 import WrglModel.Driver.C14
 import WrglModel.Driver.C13
 import WrglModel.Driver.C16
+import WrglModel.Driver.C09
 open Lean Wrgl.Drv
 
 def dispatch (prop op : String) (input impl : Json) : Except String Json :=
@@ -38,6 +39,8 @@ def dispatch (prop op : String) (input impl : Json) : Except String Json :=
   | "C14" => handleC14 op input impl
   | "C13" => handleC13 op input impl
   | "C16" => handleC16 op input impl
+  | "C09" => handleC09 op input impl
+  | "C10" => handleC10 op input impl
   | "C18" => handleC18 op input impl
   | _ => .error s!"unknown property {prop}"
 
